@@ -123,32 +123,27 @@ Theorem c19_sync_answers_deny : forall c s id po tx t,
 Proof. exact sync_answers_deny. Qed.
 Print Assumptions c19_sync_answers_deny.
 
-Theorem c19_sync_answers_intercept : forall c s id tx t,
-  dead s = false -> pout s = Intercept t ->
-  exists s', step c s (MS id true tx) = (s', (if held s then [] else [EvCheckout]) ++ [EvIntercept t]) /\
-             ebuf s' = [] /\ pout s' = Allow.
+Theorem c19_sync_answers_intercept : forall c s id po tx t,
+  dead s = false -> pout s = Intercept t -> step c s (MS id po tx) = (consume s, [EvIntercept t]).
 Proof. exact sync_answers_intercept. Qed.
 Print Assumptions c19_sync_answers_intercept.
 
-(** No stale verdict while checkouts succeed ... *)
-Theorem c19_no_stale_verdict : forall c ops, forallb pool_ok_of ops = true -> fresh (fst (run c init ops)).
+(** No stale verdict: a non-Allow verdict is pending only while the batch that earned it is
+    still buffered - also across failed checkouts (before a7d476c a failed checkout at Sync
+    kept an Intercept verdict and the next, unrelated batch was answered with the old
+    rows; the wire check saw exactly that). *)
+Theorem c19_no_stale_verdict : forall c ops, fresh (fst (run c init ops)).
 Proof. exact no_stale. Qed.
 Print Assumptions c19_no_stale_verdict.
 
-(** ... but a failed checkout at Sync clears the batch and KEEPS an Intercept verdict:
-    the next, unrelated batch (all verdicts Allow) is answered with the old rows and is
-    not forwarded. *)
-Theorem c19_stale_intercept_refuted : exists c ops,
-  In (EvIntercept 1) (trace c ops) /\
-  ~ fresh (fst (run c init (firstn 2 ops))) /\
-  forallb (fun m => negb (bad_msg c m)) (skipn 2 ops) = true.
-Proof.
-  exists (mkCfg true true false true),
-         [MP 1 0 7 true (Intercept 1); MS 2 false false; MP 3 0 8 true Allow; MB 4 0; ME 5; MS 6 true false].
-  split; [vm_compute; tauto|]. split; [|reflexivity].
-  intros F. apply F; reflexivity.
-Qed.
-Print Assumptions c19_stale_intercept_refuted.
+(** ... concretely: intercepted batch, Sync while the pool is exhausted, then an unrelated
+    batch: rows for the first, server reply for the second. *)
+Example c19_stale_intercept_fixed :
+  trace (mkCfg true true false true)
+        [MP 1 0 7 true (Intercept 1); MS 2 false false; MP 3 0 8 true Allow; MB 4 0; ME 5; MS 6 true false] =
+  [EvIntercept 1; EvCheckout;
+   EvFwd [FMsg (MP 3 0 8 true Allow); FMsg (MB 4 0); FMsg (ME 5); FMsg (MS 6 true false)]; EvRelease].
+Proof. reflexivity. Qed.
 
 (** "answered with a permission error" is NOT always what a denied Parse gets: behind an
     intercepted Parse of the same batch the client receives the rows instead (nothing is
